@@ -1861,10 +1861,13 @@ func (p *Parser) parseCallLike() ast.Expr {
 	}
 
 	var args []ast.Arg
+	// A named argument can start the list or follow a comma, but not directly follow a positional argument.
+	afterComma := true
 	if p.Token.Kind != ")" {
 		for p.Token.Kind != token.TokenEOF && !p.lookaheadNamedArg() {
 			args = append(args, p.parseArg())
-			if p.Token.Kind != "," {
+			afterComma = p.Token.Kind == ","
+			if !afterComma {
 				break
 			}
 			p.nextToken()
@@ -1874,7 +1877,7 @@ func (p *Parser) parseCallLike() ast.Expr {
 	// https://github.com/google/zetasql/blob/master/docs/functions-reference.md#named-arguments
 	// You cannot specify positional arguments after named arguments.
 	var namedArgs []*ast.NamedArg
-	for {
+	for afterComma {
 		namedArg := p.tryParseNamedArg()
 		if namedArg == nil {
 			break
